@@ -4,9 +4,11 @@ import (
 	"fmt"
 	"os"
 	"path/filepath"
+	"runtime"
 	"sort"
 	"strings"
 	"testing"
+	"time"
 
 	"github.com/ethereum/go-ethereum/common"
 	"github.com/ethereum/go-ethereum/consensus/ethash"
@@ -395,17 +397,18 @@ func (rb *rebooter) run(model *simdisk.FSModel, img map[string][]byte, mem *memo
 		bound    int64 = -1
 		boundWhy string
 	)
-	if v := guard("reboot", func() *simcore.Violation {
+	if v, hung := withDeadline("reboot", func() *simcore.Violation {
 		db, err := rawdb.Open(kv, rawdb.OpenOptions{Ancient: filepath.Join(nroot, "ancient")})
 		if err != nil {
 			v := viol("reboot-open-failed", "rawdb.Open on the crash image failed: %v", err)
 			v.Key = "reboot-open-failed:" + rb.modeKey() + ":" + classOf(err.Error())
-			if k := rb.h.opAt(rb.cut); strings.Contains(err.Error(), "already extracted") && k >= 0 && k < len(rb.h.ops) &&
+			if k := rb.h.opAt(rb.cut); (strings.Contains(err.Error(), "already extracted") || strings.Contains(err.Error(), "gap in the chain between ancients")) && k >= 0 && k < len(rb.h.ops) &&
 				(rb.h.ops[k].kind == "insert" || rb.h.ops[k].kind == "setcanon") && !rb.tree.isAncestorOrSelf(rb.headBefore(k), rb.h.ops[k].headAfter) {
 				// same window as reboot-canon-gap:reorg-deletes-old-index-before-moving-head, with the
-				// fork point at genesis: canonical hash #1 is gone while the head markers are not
-				// genesis, and rawdb.Open takes that for a key-value store whose freezer is missing
-				v.Key = "reboot-open-failed:reorg-deleted-canonical-hash-1-before-moving-head"
+				// fork point at genesis or at the last frozen block: the canonical hash right above
+				// the freezer is gone while the head markers still name the old head, and rawdb.Open
+				// takes that for a key-value store that does not belong to the freezer
+				v.Key = "reboot-open-failed:reorg-deletes-old-index-before-moving-head"
 			}
 			return v
 		}
@@ -427,6 +430,17 @@ func (rb *rebooter) run(model *simdisk.FSModel, img map[string][]byte, mem *memo
 		w.col = newCollector(bc)
 		return nil
 	}); v != nil {
+		if hung {
+			// the goroutine inside NewBlockChain is blocked for good; stop what can be stopped
+			// (the chain freezer's timer would otherwise keep the bubble alive forever)
+			func() {
+				defer func() { recover() }()
+				if w.db != nil {
+					w.db.Close()
+				}
+			}()
+			w.db, w.bc = nil, nil
+		}
 		if v.Oracle == "panic" || v.Oracle == "log-crit" {
 			v.Key = "reboot-" + v.Key
 			v.Oracle = "reboot-" + v.Oracle
@@ -695,4 +709,45 @@ func (rb *rebooter) headBefore(k int) int {
 		return rb.h.ops[k-1].headAfter
 	}
 	return -1
+}
+
+// withDeadline runs f on its own goroutine and gives up after a day of virtual
+// time. Inside the bubble the clock only moves when every goroutine is durably
+// blocked, so the deadline fires exactly when f can never return.
+func withDeadline(what string, f func() *simcore.Violation) (v *simcore.Violation, hung bool) {
+	done := make(chan *simcore.Violation, 1)
+	go func() { done <- guard(what, f) }()
+	select {
+	case v := <-done:
+		return v, false
+	case <-time.After(24 * time.Hour):
+		buf := make([]byte, 1<<20)
+		st := string(buf[:runtime.Stack(buf, true)])
+		v := viol("reboot-hang", "%s never returns: every goroutine is blocked\n%s", what, hangStack(st))
+		if strings.Contains(st, "ClosableMutex).TryLock") && strings.Contains(st, "ResetWithGenesisBlock") && strings.Count(st, "setHeadBeyondRoot(") >= 2 {
+			// NewBlockChain -> setHeadBeyondRoot (holds chainmu) -> loadLastState -> "Head block
+			// missing, resetting chain" -> Reset -> SetHead -> setHeadBeyondRoot -> chainmu again
+			v.Key = "reboot-hang:reset-inside-repair-locks-chainmu-twice"
+		}
+		return v, true
+	}
+}
+
+// hangStack keeps the geth frames of the goroutine that is stuck in the tree under test.
+func hangStack(st string) string {
+	for _, g := range strings.Split(st, "\n\n") {
+		if strings.Contains(g, "chainsim.withDeadline.func1") {
+			var keep []string
+			for _, l := range strings.Split(g, "\n") {
+				if strings.Contains(l, "go-ethereum") && !strings.HasPrefix(l, "\t") {
+					if i := strings.LastIndex(l, "("); i > 0 {
+						l = l[:i]
+					}
+					keep = append(keep, l)
+				}
+			}
+			return strings.Join(keep, "\n")
+		}
+	}
+	return "(stack of the blocked goroutine not found)"
 }
